@@ -37,6 +37,8 @@ def g_case(draw, allow_var=True, max_rows=None):
     offs = gen.feature_offsets(draw, F, scales, kmax=10.0)
     prior = gen.gmm_params(draw, C, F, scales=scales, offs=offs)
     n = gen.integer(draw, 1, max_rows or (40 if gen.big() else 20))
+    if gen.choice(draw, [False, False, False, False, True]):
+        n = 1  # adaptation from a single frame
     shifted = dict(prior)
     shifted["means"] = prior["means"] + scales[None, :] * r.normal(0, 1.0, (C, F))
     X, _ = gen.data_from(draw, shifted, n, kind="bulk", r=r)
@@ -63,6 +65,8 @@ def g_case(draw, allow_var=True, max_rows=None):
          # from a root UBM): the prior is the machine that was handed over, with ITS parameters
          "prior_is_map": gen.choice(draw, [False, False, True])}
     c["how"] = gen.presentation_for(draw, c)
+    if c["X"].shape[0] == 1 and c["how"] == "plain" and gen.boolean(draw):
+        c["how"] = "row1d"  # the single frame handed over as a 1-D vector of n_features values
     return c
 
 
